@@ -156,7 +156,7 @@ def rand_port(rng, table: dict | None = None, small=None) -> int:
         return rng.randint(1, small["ports"])
     roll = rng.random()
     if roll < 0.25:
-        return rng.choice([1, 2, 65534, 65535])
+        return rng.choice([1, 2, 65534, 65535, 1, 65535, 1023, 1024, 49151, 49152])
     if roll < 0.5 and table:
         return max(1, min(65535, rng.choice(list(table.values())) + rng.choice([-1, 0, 0, 1])))
     if roll < 0.75:
